@@ -4,6 +4,7 @@
 (*   {"ev":"read","lane":l,"s":..,"ns":..}            a monotonic reading                   *)
 (*   {"ev":"elapsed","lane":l,"base_s","base_ns","ds","dns","bs","bns","s","ns"}             *)
 (*                                                     MonotonicInstant::elapsed, bracketed  *)
+(*   {"ev":"intr","lane":helper lane,"target":l,"s","ns"}  SIGUSR1 sent to sleeping lane l       *)
 (*   {"ev":"sleep","lane":l,"ds","dns","bs","bns","s","ns","res"}  reading before, sleep(d), *)
 (*                                                     reading after, result of sleep()      *)
 (* Clock values are pairs (s, ns) compared lexicographically (ns < 10^9 < 2^31).  The       *)
@@ -48,7 +49,14 @@ ElapsedEv == /\ i <= Len(Rec) /\ Rec[i].ev = "elapsed"
                 /\ Leq(b, PlusD(base, d)) /\ Leq(PlusD(base, d), a)
                 /\ seen' = [seen EXCEPT ![Rec[i].lane] = a]
              /\ i' = i + 1 /\ nread' = nread + 1 /\ UNCHANGED nsleep
-Next == ReadEv \/ SleepEv \/ ElapsedEv
+\* a signal sent to a sleeping lane (Clock!Interrupt), with the sender's clock reading: the
+\* sender's lane stays ordered; what it does to the sleeper is judged at that sleeper's "sleep" event
+IntrEv == /\ i <= Len(Rec) /\ Rec[i].ev = "intr"
+          /\ LET v == <<Rec[i].s, Rec[i].ns>> IN
+             /\ Norm(v) /\ Leq(seen[Rec[i].lane], v)
+             /\ seen' = [seen EXCEPT ![Rec[i].lane] = v]
+          /\ i' = i + 1 /\ UNCHANGED <<nread, nsleep>>
+Next == ReadEv \/ SleepEv \/ ElapsedEv \/ IntrEv
 Done == i > Len(Rec) \/ ~ENABLED Next
 Report == Done => PrintT(<<"CLOCK", ToJson([n |-> Len(Rec), consumed |-> i - 1, reads |-> nread, sleeps |-> nsleep])>>)
 =============================================================================
